@@ -105,6 +105,41 @@ def run(ctx: Ctx) -> None:
             why = f"{len(lines)} lines vs {len(base_keys)}" if len(keys) != len(base_keys) else (f"line {diffs[0][0]}: {SStr(diffs[0][2]).describe()!r} vs default {SStr(diffs[0][1]).describe()!r}" if diffs else f"keyword glued to its value: {glued[:2]}")
             ctx.check(good, "O2", f"{rname} | {sname}", locf, f"{len(lines)} lines, content identical", f"option setting '{sname}' changes content: {why}")
 
+    # ---- O4 ------------------------------------------------------------------------------------------
+    ctx.rule("O4", "with align_values every keyword of every type, printed as the only (hence longest) keyword of its block, is separated from its value by at least one space, for indent 0, 1, 2, 4, 7", 250)
+    from .. import printer as _printer
+    from .c19 import special_block_rules
+
+    S, G = e.S, e.G
+    special_keys = set(special_block_rules(G))
+    n4 = 0
+    for t in S.types():
+        if t == "symbolset":
+            continue
+        for k, node in sorted(S.slots(t).items()):
+            if k in special_keys:
+                continue
+            classes = [vc for vc in _printer.classes_for(S, t, k, node) if vc.expect not in ("RAISE",)]
+            if not classes:
+                continue
+            vc = next((c for c in classes if c.expect == "BARE_NUM"), classes[0])
+            bad = []
+            for indent in (0, 1, 2, 4, 7):
+                is_rep = k in repo.const("tokens", "REPEATED_KEYS")
+                mk = lambda t=t, k=k, vc=vc, is_rep=is_rep: cd([("__type__", t), (k, [W("rep")] if is_rep else vc.make('"'))])
+                outs = L.format_lines(mk, lambda indent=indent: L.sym_options(end_comment=False, align_values=True, indent=indent, spacer=" "), level=0, fork=False)
+                if len(outs) != 1 or outs[0][1] != "return":
+                    raise AnalysisError(f"_format not evaluable for {t}.{k}: {outs}")
+                for ln in outs[0][2]:
+                    s2 = pai.as_sstr(ln)
+                    txt = "".join(p if isinstance(p, str) else "□" for p in s2.pieces)
+                    stripped = txt.lstrip(" ")
+                    if stripped.upper().startswith(k.upper()) and len(stripped) > len(k) and stripped[len(k)] != " ":
+                        bad.append((indent, stripped[:24]))
+            n4 += 1
+            ctx.check(not bad, "O4", f"{t}.{k}", locf, "separated under every indent", f"with align_values the keyword {k.upper()} is glued to its value: {bad[:3]} (it is written by the padded writer but not counted by compute_max_key_length)")
+    ctx.units["keywords_checked_under_align_values"] = n4
+
     # ---- O3 ------------------------------------------------------------------------------------------
     ctx.rule("O3", "separate_complex_types is a stable partition (simple keys, then block-valued keys, each in original order) and does nothing when off", 3)
     I = e.interp(allow_fork=False)
